@@ -149,7 +149,7 @@ func gatewayFields(c *Ctx, i int) CaseResult {
 	if atReturn != 0 {
 		fail("L0.quiescence", fmt.Sprintf("Execute returned while %d resolvers of the gateway's own query fields were still running", atReturn))
 	}
-	deadline := time.Now().Add(time.Second)
+	deadline := time.Now().Add(3 * time.Second) // generous: the machine may be busy
 	for runtime.NumGoroutine() > before && time.Now().Before(deadline) {
 		time.Sleep(2 * time.Millisecond)
 	}
